@@ -18,7 +18,11 @@ def BasicHeader.fields (h : BasicHeader) : List Int :=
 
 def TrafficClass.fields (t : TrafficClass) : List Int := [b2n t.scf, b2n t.channelOffload, t.tcId]
 
-/-- flags octet split into bit 0 (mobile, MSB) and the 7 reserved bits; `reserved` appears twice (4 and 8 bit) -/
+/-- flags octet split into bit 0 (mobile, MSB) and the 7 reserved bits.  The standard's layout has TWO reserved fields
+(4 bits after NH, 8 bits after MHL); the Python class stores ONE attribute `reserved` and `encode_to_int` writes it
+into both, so the value list an encoder produces has `h.reserved` at both positions (under `WF`: < 16).  The decoder
+reads only the trailing octet back (and drops the 4-bit field and the 7 reserved flag bits): see
+`Props.C02.common_decode_reads_layout` (all inputs) and `common_reserved_asymmetry_witness`. -/
 def CommonHeader.fields (h : CommonHeader) : List Int :=
   [(h.nh : Int), (h.reserved : Int), (h.ht : Int), (h.hst : Int)] ++ h.tc.fields ++ [((h.flags / 128 : Nat) : Int), ((h.flags % 128 : Nat) : Int), (h.pl : Int), (h.mhl : Int), (h.reserved : Int)]
 
@@ -78,13 +82,19 @@ def Request.WF (r : Request) : Prop :=
   r.length < 65536 ∧ r.area.WF ∧ r.maxHopLimit < 256
 
 /-! ### field settings the standard prescribes for originated packets (EN 302 636-4-1 clause 10.3) -/
-/-- Basic Header: version = itsGnProtocolVersion, NH = 1 (Common Header), reserved 0, LT, RHL -/
-def Spec.basicValues (version : Nat) (lt : FlexModel.Geo.LT) (rhl : Nat) : List Int :=
-  [version, 1, 0, lt.mult, lt.base, rhl]
+/-- Basic Header: version = itsGnProtocolVersion, NH = 1 (Common Header), reserved 0, LT octet (multiplier = its 6
+most significant bits, base = its 2 least significant bits; WHICH octet: `LTSpec.IsLifetimeOctet`), RHL.
+No function of the implementation model occurs here. -/
+def Spec.basicValues (version : Nat) (ltOctet : Nat) (rhl : Nat) : List Int :=
+  [version, 1, 0, ((ltOctet / 4 : Nat) : Int), ((ltOctet % 4 : Nat) : Int), rhl]
 
 /-- Common Header: NH, reserved 0, HT, HST, TC, flags = (itsGnIsMobile, 0000000), PL, MHL, reserved 0 -/
 def Spec.commonValues (nh ht hst : Nat) (tc : TrafficClass) (mobile pl mhl : Nat) : List Int :=
   [nh, 0, ht, hst, b2n tc.scf, b2n tc.channelOffload, tc.tcId, mobile, 0, pl, mhl, 0]
+
+/-- §9.7.3 traffic class octet read the standard's way (SCF = MSB, channel offload = next bit, TC ID = low 6 bits);
+used for itsGnDefaultTrafficClass on the Spec side (the implementation uses `TrafficClass.decode_from_int`: shifts/masks) -/
+def Spec.tcOfOctet (o : Nat) : TrafficClass := ⟨decide (o / 128 % 2 = 1), decide (o / 64 % 2 = 1), o % 64⟩
 
 /-- field values of a basic header with another RHL (forwarding) -/
 def basicValuesRaw (h : BasicHeader) (rhl : Nat) : List Int := [h.version, h.nh, h.reserved, h.lt.mult, h.lt.base, rhl]
